@@ -213,7 +213,7 @@ def edge_case(case):
     return {"ok": True, "nt": True, "ops": k, "out": "edges"}
 
 
-FUNCS = {"equality_edges": edge_case, "construction": construction_case, "term_pairs": binop, "term_coeffs": binop, "scalars": binop, "near_operands": binop, "powers": powop, "sum_pairs": binop, "mixed": binop,
+FUNCS = {"equality_edges": edge_case, "construction": construction_case, "term_pairs": binop, "term_coeffs": binop, "scalars": binop, "near_operands": binop, "scale": binop, "powers": powop, "sum_pairs": binop, "mixed": binop,
          "simplify": simplify_case, "equality": eq_case}
 
 PAULIS = "IXYZ"
@@ -310,6 +310,18 @@ def run(run):
             cases.append({"op": "sub", "a": {"n": c}, "b": T(d, {})})
             cases.append({"op": "sub", "a": T(c, {}), "b": {"n": d}})
     secs.append(Section("near_operands", cases, binop, desc="operands whose like coefficients differ by 1e-7..1e-5 relative: + - * still denote the matrix operation (to 1e-9)"))
+    # --- scale: operands whose coefficients are far below the library's 1e-8 zero tolerance are still operands - multiplied or divided by a factor of the
+    #     inverse size they give O(1) operators (only * and /: a sum of two tiny terms legitimately simplifies to nothing)
+    cases = []
+    tiny_ops = [T(3e-9, {"0": "X"}), T([0, 4e-9], {"0": "Y", "1": "Z"}), T(5e-9, {}), {"s": [[3e-9, {"0": "X"}], [4e-9, {"1": "Z"}]]}, {"s": [[3e-9, {"0": "X"}], [[0, 4e-9], {"0": "X"}], [2e-9, {}]]},
+                {"s": [[1e-12, {"2": "Y"}]]}, {"s": [[3e-9, {"0": "Z"}], [1.0, {"1": "X"}]]}]
+    huge_ops = [T(2e8, {"1": "Z"}), T([0, 1e9], {"0": "X"}), T(4e8, {}), {"s": [[2e8, {"0": "Y"}], [1e8, {"2": "Z"}]]}, {"s": [[1e9, {}]]}, {"n": 2e8}, {"n": [0, 1e9]}]
+    for a in tiny_ops:
+        for b in huge_ops:
+            cases += [{"op": "mul", "a": a, "b": b}, {"op": "mul", "a": b, "b": a}]
+        for dv in (5e-9, [0, 1e-9], -2.5e-10):
+            cases.append({"op": "div", "a": a, "b": {"n": dv}})
+    secs.append(Section("scale", cases, binop, desc="operands with coefficients of 1e-12..5e-9 times / divided by factors of 1e8..1e9: the O(1) product is the matrix product"))
     # --- simplify: ordered lists (order matters for like-term merging)
     pool = term_pool()
     L = 3 if thorough else 2
@@ -338,6 +350,11 @@ def run(run):
         tiny = [{"t": [c, st]} for st in ({"0": "X"}, {"0": "Z"}, {"1": "X"}, {"0": "X", "1": "Y"}, {})]
         tiny += [{"s": [[c, st]]} for st in ({"0": "X"}, {"0": "Z"}, {})] + [{"s": [[c, st], [1.0, {"2": "Z"}]]} for st in ({"0": "X"}, {"0": "Z"}, {"1": "Y"})]
         cases += [{"a": a, "b": b} for a in tiny for b in tiny]
+    # operators against plain numbers, number on either side: a zero coefficient on any string is the zero operator, a constant term is its number
+    numbers = [{"n": v} for v in (0, 0.0, [0, 0], 1, 1.0, -2.5, [0, 0.5], 3.0, 1e-9, [1, 1e-12])]
+    opnds = [{"t": [c, st]} for st in ({}, {"0": "X"}, {"1": "Z", "2": "Y"}, {"3": "X", "1": "Z"}) for c in (0, 0.0, [0, 0], 1.0, -2.5, [0, 0.5], 3, 1e-9)]
+    opnds += [{"s": s_} for s_ in ([], [[0, {"0": "X"}]], [[3.0, {}]], [[1.0, {}], [2.0, {}]], [[1.0, {"0": "X"}], [-1.0, {"0": "X"}]], [[-2.5, {}], [0.0, {"1": "Y"}]], [[1.0, {}], [1.0, {"0": "Z"}]])]
+    cases += [{"a": a, "b": b} for a in opnds for b in numbers] + [{"a": b, "b": a} for a in opnds for b in numbers]
     secs.append(Section("equality", cases, eq_case, desc="== on all ordered pairs of simplified pool members vs matrix equality"))
     cases = []
     for st in strings([0, 1, 2]):
